@@ -580,6 +580,12 @@ func (e *Enc) doCallInner(ci ssa.CallInstruction, c *ssa.CallCommon, args []Term
 					"the called function value is the bound method "+target+" of the stated receiver", ci.Pos())
 				return e.applyContract(ci, mfc, mfn, shortFuncName(mfn), margs, nil, sig, e.deferExtra)
 			}
+			if d.Name == name && d.Spec == "any" {
+				// declared, with nothing promised about it: everything may change
+				e.assumed["dynamic call of "+name+" in "+e.key+": declared `any`, all heaps havocked, assumed not to panic"] = true
+				e.cur = e.havocAll(e.cur)
+				return e.freshResults(sig), nil
+			}
 			if d.Name == name {
 				spec, ok := e.prog.cs.FnSpecs[d.Spec]
 				if !ok {
@@ -603,7 +609,12 @@ func (e *Enc) doCallInner(ci ssa.CallInstruction, c *ssa.CallCommon, args []Term
 			}
 		}
 	}
-	// unknown callee: everything may change
+	// unknown callee: everything may change. In a function under contract every call through a function value must be
+	// declared (`dyncall <name> : <fnspec>` or `dyncall <name> : any`): an undeclared one is a call the contract's
+	// author never saw (e.g. a second evaluation of a stateful rate function added for a log line)
+	if e.fc != nil && e.inl == "" {
+		e.oblige("PROTO", "undeclared-call", nil, Not(e.curGuard), "call through the function value "+name+", which the contract does not declare with a dyncall clause", ci.Pos())
+	}
 	e.assumed["dynamic call of "+name+" in "+e.key+": no fnspec, all heaps havocked, assumed not to panic"] = true
 	e.cur = e.havocAll(e.cur)
 	return e.freshResults(sig), nil
